@@ -33,29 +33,56 @@ REQUIRED_THEOREMS = [
     "insert_conserves", "insert_conserves_compiled", "insert_conserves_compiled2", "insert_conserves_compiled3",
     "insert_conserves_compiled_ghost", "insert_conserves_compiled_ghost2",
     "insert_interpreted_eq_compiled", "insert_interpreted_eq_compiled2", "insert_interpreted_eq_compiled3",
+    # periodic seam VALUE in 2 and 3 axes
+    "periodic_seam_value2", "periodic_seam_both2", "periodic_seam_value3", "periodic_seam_all3",
+    # Props/C16Eps.lean: the real clipping constant 0 <= eps <= 1/2 (the driver evaluates eps = 1e-15)
+    "clipping_error", "clipping_error2", "clipping_error3",
+    "real_eps_of_exact", "real_eps_of_exact2", "real_eps_of_exact3",
+    "multilinear_between_centres_eps", "multilinear_between_centres2_eps", "multilinear_between_centres3_eps",
+    "exact_on_affine_eps", "exact_on_affine2_eps", "exact_on_affine3_eps",
+    "within_data_range_eps", "within_data_range2_eps", "within_data_range3_eps",
+    "periodic_seam_eps", "boundary_strip_nearest_eps", "ghost_mode_linear_to_bc_value_eps",
+    "ghost_mode_dirichlet_value_eps",
+    "insert_compiled_integral", "insert_compiled_integral2", "insert_compiled_integral3",
+    "insert_conserves_compiled_eps", "insert_conserves_compiled2_eps", "insert_conserves_compiled3_eps",
+    "insert_conserves_compiled_ghost_eps", "insert_conserves_compiled_ghost2_eps",
+    "insert_interpreted_eq_compiled_eps", "insert_interpreted_eq_compiled2_eps", "insert_interpreted_eq_compiled3_eps",
+    "driver_floor_instance_eq",
 ]
+EXTRA_PROP_FILES = ["C16Eps"]
 RULE = ("(a) lattice sweep: small dyadic Cartesian grids with 1 and 2 axes, every periodicity pattern, every point of "
         "a regular lattice of cell coordinates from 2 cells below to 1 cell above the domain (all integer / half-integer "
-        "ties, every branch), compared exactly; (b) random grids of every class (UnitGrid/CartesianGrid with 1-3 axes and every periodicity pattern, "
+        "ties, every branch, points exactly on the boundary included for the correspondence), compared exactly; "
+        "(b) random grids of every class (UnitGrid/CartesianGrid with 1-3 axes and every periodicity pattern, "
         "PolarSymGrid, SphericalSymGrid, CylindricalSymGrid, with and without inner hole, 1..7 cells per axis, "
-        "dyadic or generic bounds) carrying fields of rank 0-2 (random, dyadic, affine or constant data) and "
+        "dyadic or generic bounds) carrying fields of rank 0-2 (random, dyadic, affine or constant data; on every second "
+        "grid also complex data and integer data with and without an integer dtype) and "
         "points drawn by class (cell centres, faces, cell corners, bulk, boundary strips, domain corners, "
         "periodic seams, wrapped periodic images, near-integer ties, uniformly random, clearly outside by "
-        "1e-6 .. 10 cells; points within 1e-9 cells of a non-periodic domain boundary are never generated); one "
-        "case = (grid, field, operation, point); it is distinct by these and non-trivial if the field is not "
+        "1e-6 .. 10 cells; points within 1e-9 cells of a non-periodic domain boundary are not judged by the monitors); "
+        "boundary conditions (value / derivative per face, auto_periodic_*) with probe lines along the inward normal of "
+        "every face through a cell centre, through an arbitrary tangential position and through the corner squares "
+        "(a second non-periodic axis within half a cell of its boundary); target grids of interpolate_to_grid of the "
+        "same class (inside / equal / beyond) and Cartesian targets of curvilinear sources; a malformed stream (wrong "
+        "number of coordinates, NaN / inf coordinates) whose expected outcome is an error class; "
+        "one case = (grid, field, operation, point); it is distinct by these and non-trivial if the field is not "
         "constant and the expected outcome is a value (not an error / the fill value)")
 ASSUMPTIONS = [
-    "points within 1e-9 of the domain boundary are excluded (membership ill-conditioned, as the property says)",
+    "points within 1e-9 of the domain boundary are excluded from the monitors (membership ill-conditioned, as the "
+    "property says); on the dyadic lattice they are still compared with the model (exact arithmetic on both sides)",
     "float results are compared with the exact (Rat) model within 1e-10 of the natural scale "
     "(max |data|, resp. max|data| + |amount|/min cell volume); on dyadic grids with dyadic data exactly",
     "at a rounding tie (cell coordinate within 1e-9 of an integer) the index pair of get_axis_data may "
     "differ from the exact one; there the index->weight distribution is compared instead of the raw tuple "
     "(with numpy's negative-index wrap-around: for a cell coordinate in (-2^-53, 0) float divmod returns (-1, 1.0), "
     "i.e. index -1 with weight 0, or - single cell - index -1 = that cell)",
-    "boundary-condition ghost cells are produced by the real set_ghost_cells (property C02); the model "
-    "receives the resulting full array",
-    "theorems are stated for the clipping constant eps <= 0 (clipping inert, exact arithmetic); the effect of "
-    "eps = 1e-15 is bounded by clip_close / weights_clipped and replicated exactly by the Rat model",
+    "the ghost cells behind a face are what the imposed condition defines (value v: 2v - cell, outward derivative d: "
+    "cell + d dx; the defining equations themselves are property C02), edge / corner ghost cells are what "
+    "set_ghost_cells(set_corners=True) documents (mean of the adjacent ghost cells): the harness builds this padded "
+    "array itself, feeds it to the model and compares the real interpolation with it; the ghost layer of the real "
+    "field is filled with NaN before every call",
+    "compiled against interpreted: relative 1e-12 of the scale of the data (the compiler may reorder floating-point "
+    "operations)",
 ]
 TRUSTED_EXTRA = ["numpy divmod/astype/choose/ndindex semantics as read from the source (validated by the correspondence)"]
 
@@ -740,7 +767,9 @@ def work(spec):
                 r = []
                 for p in ipts:
                     try:
-                        r.append(_vals(fi.interpolate(np.array(p, dtype=float))))
+                        v = np.asarray(fi.interpolate(np.array(p, dtype=float)))
+                        o[name + "_result_kind"] = v.dtype.kind
+                        r.append(_vals(v))
                     except Exception as e:  # noqa: BLE001
                         r.append(_err(e))
                 o[name] = r
@@ -1841,7 +1870,7 @@ def evaluate_jit_vs_source(ctx, spec, axes, res_j, res_s):
         ctx.count(count_key(spec, "jit_vs_source", what=op), nontrivial=fs["kind"] != "constant", leg="jit_vs_source")
         ctx.hist("compiled", f"{op}/{spec['grid']['cls']}/{len(axes)}ax" + ("/per" if any(a[1] for a in axes) else ""))
         oj, os_ = res_j[op], res_s[op]
-        if op == "intdata" and any(os_.get("int" + sfx) != os_.get("converted" + sfx) for sfx in ("", "_fill")):
+        if op == "intdata" and (os_.get("int_result_kind", "f") in "iu" or oj.get("int_result_kind", "f") in "iu"):
             # with an integer dtype the unchanged library truncates the interpolant (reported by the leg intdata_int);
             # truncated values are not compared between the modes (a value within round-off of an integer may be cut
             # either way) - the variant that is converted to float is
